@@ -93,8 +93,9 @@ def main():
             line["sample"] = {"config": program.get("config"), "ops": program.get("ops", [])[:12], "schedule": dict(list((res.get("schedule") or {}).items())[:6])}
         new = []
         for v in res.get("violations", []):
-            if v["signature"] in known:
-                line["known"].append({"signature": v["signature"], "detail": v["detail"][:300]})
+            k_ = findings.match_known(v["signature"], known)
+            if k_ is not None:
+                line["known"].append({"signature": k_, "seen_as": v["signature"], "detail": v["detail"][:300]})
             else:
                 new.append(v)
         if new:
